@@ -206,7 +206,7 @@ def compare_slice(run, name: str, base: dict, body_max, *, integ="generic", mode
             model_cache[name] = (idle, pools)
     try:
         real_idle, trans = walk(c, pools, body_max=body_max or 0, integ=integ)
-    except AttributeError as ex:       # the projection reads encoder internals; renamed internals degrade this comparison only
+    except (AttributeError, TypeError, KeyError) as ex:       # the projection reads encoder internals; renamed or restructured internals degrade this comparison only
         run.model_drift(f"state projection of Stream/TermEncoder unavailable ({ex}): state-graph comparison of {name} skipped")
         return None, None
     judged, gst = judge_transitions(c, trans)
